@@ -595,6 +595,7 @@ func init() {
 	addBinaryIntrinsics()
 	addXzIntrinsics()
 	addStoreIntrinsics()
+	addJSONIntrinsics()
 }
 
 func (in *Interp) mkError(msg string) value {
